@@ -44,7 +44,7 @@ prop(
          "a cell = (chain length class, last-N, peers, disturbance kind, PoW flavour, difficulty mode)",
     sizes=tiers(16, 240, 60, 16, 1500, 600, min_evals=2000, min_cells=20),
     technique="runtime monitoring: RecNet ban/disconnect monitor + bounded-progress convergence oracle over generated honest sync histories",
-    level_text="Held on N generated honest histories (variable-difficulty chains with real Eaglesong PoW or dummy PoW at 2^100..2^190 difficulty, 1-4 peers incl. lagging views, growth, restarts, shallow reorgs, joins/leaves) in which the client's own random FlyClient requests are answered by an RFC-conformant server: no ban, no unexplained disconnect, no panic, tip = heaviest announced tip within 60 scheduler rounds. Exploration, not proof: reach is the generated scenario space.",
+    level_text="Held on N generated honest histories (variable-difficulty chains with real Eaglesong PoW or dummy PoW at 2^100..2^190 difficulty, 1-4 peers incl. lagging views, growth, restarts, shallow reorgs whose fork point is one of the remembered headers or any depth below last-N, joins/leaves) in which the client's own random FlyClient requests are answered by an RFC-conformant server: no ban, no unexplained disconnect, no panic, tip = heaviest announced tip within 60 scheduler rounds. Exploration, not proof: reach is the generated scenario space.",
     level_note="honest server simulator and chain generator are part of the trusted base; check point interval > last-N as in production; liveness restated as bounded progress (R=60 rounds, measured max 8)",
 )
 
@@ -80,7 +80,7 @@ prop(
          "a cell = (query kind, order/grouping, filter kinds, paging class, search kind exact/prefix/longer/wrong-type)",
     sizes=tiers(16, 12000, 60, 16, 200000, 900, min_evals=10000, min_cells=40),
     technique="runtime monitoring: RPC answers vs. an independent decoder of the RocksDB dump, plus metamorphic relations (desc = reverse(asc), grouped = group(ungrouped), capacity = sum(cells))",
-    level_text="On stores filled by the real filter_block from generated chains (prefix-sharing scripts incl. empty args, same code hash with different hash types, typed/untyped cells, many cells per block) every generated query (exact / prefix / longer-args / wrong-type search keys, both orders, limits 1..100000, all filter kinds incl. empty, inverted and touching ranges) returns exactly the matching entries once in key order; desc is the reverse of asc; grouped equals the ungrouped list grouped by consecutive transaction for every page size; get_cells_capacity equals the sum over get_cells and reports the stored tip.",
+    level_text="On stores filled by the real filter_block from generated chains (prefix-sharing scripts incl. empty args, same code hash with different hash types, typed/untyped cells, many cells per block) every generated query (exact / prefix / longer-args / wrong-type search keys, both orders, limits 1..100000, with_data true / absent / false, all filter kinds incl. empty, inverted and touching ranges) returns exactly the matching entries once in key order; desc is the reverse of asc; grouped equals the ungrouped list grouped by consecutive transaction for every page size; get_cells_capacity equals the sum over get_cells and reports the stored tip.",
     level_note="script_len_range is taken as inclusive on both ends and the transaction script filter as exact (as ckb-indexer implements them); the dump decoder is part of the trusted base",
     assumptions=["ground truth is the store content (the property is about views of the index), decoded independently of service.rs"],
 )
@@ -124,7 +124,7 @@ prop(
     "C03", "exploration", rule=IDX_RULE,
     sizes=tiers(16, 180, 70, 16, 1500, 900, min_evals=3000, min_cells=8),
     technique="runtime monitoring: reference indexer (independent UTXO/history model over the generated chain) compared with get_cells / get_transactions / get_cells_capacity after bounded-progress convergence",
-    level_text="After generated sync histories (transaction graphs with same-block chains, multi-script and typed cells; 1-4 registered scripts with different start numbers; random filter batch boundaries) interleaved with fetch_transaction / fetch_header calls, partial set_scripts of new scripts, restarts and chain growth, every cell returned is live on the chain with exactly the chain's out-point, output, data, block number and tx index, every live cell and history entry in (start, tip] is returned, and get_cells_capacity equals the sum.",
+    level_text="After generated sync histories (transaction graphs with same-block chains, multi-script and typed cells; 1-4 registered scripts with different start numbers; random filter batch boundaries) interleaved with fetch_transaction / fetch_header calls, partial set_scripts of new scripts, restarts and chain growth (a third of the user's calls in the middle of a round, answers still in flight), every cell returned is live on the chain with exactly the chain's out-point, output, data, block number and tx index, every live cell and history entry in (start, tip] is returned, and get_cells_capacity equals the sum.",
     level_note="GCS false negatives are excluded by the library; convergence is bounded (250 rounds, chain keeps growing)",
 )
 prop(
@@ -138,7 +138,7 @@ prop(
     "C09", "exploration", rule=IDX_RULE,
     sizes=tiers(16, 180, 70, 16, 1500, 900, min_evals=3000, min_cells=10),
     technique="runtime monitoring: README map model for the script set, matched-block emptiness check after every set_scripts, reported-number-implies-indexed rule, reference indexer at convergence",
-    level_text="For generated sequences of set_scripts (all / partial / delete, empty lists, duplicates, start numbers above and below current progress, re-adding deleted scripts) issued at random points of an ongoing sync (with matched blocks pending or partly downloaded): get_scripts equals the README model right after each call, pending matched blocks are discarded, no script reports a filtered height while a block at or below it that touches it is not indexed, and after convergence every kept script has its complete history and no phantom cell.",
+    level_text="For generated sequences of set_scripts (all / partial / delete, empty lists, duplicates, start numbers above and below current progress, re-adding deleted scripts) issued at random points of an ongoing sync (with matched blocks pending or partly downloaded; a third of the calls in the middle of a round with filter batches, blocks and proofs in flight): get_scripts equals the README model right after each call, pending matched blocks are discarded, no script reports a filtered height while a block at or below it that touches it is not indexed, and after convergence every kept script has its complete history and no phantom cell.",
     level_note="inputs whose previous output predates a script's start number cannot be attributed by design and are reported under C03",
 )
 
@@ -148,7 +148,7 @@ prop(
          "every k in 1..=W of every generated history is run; a cell = (write site, enclosing operation, recovery outcome)",
     sizes=tiers(16, 4, 75, 16, 60, 1500, min_evals=300, min_cells=10),
     technique="runtime fault injection at the before_write hook (process-death model: writes < k durable, write k and later never happen), restart from disk, bounded-progress recovery, reference-indexer comparison",
-    level_text="For every generated sync history (first-run initialisation, set_scripts all / delete, filter batches, block download and indexing, tip updates, check point finalization, shallow fork rollback, restarts) a crash-free run is validated against the reference indexer and then every write boundary of that history is crashed: the store must reopen (twice in a row) without panic and continued syncing must reach answers equal to the reference at the final tip. set_scripts calls arrive both at rest and mid-sync (matched blocks pending). A mismatch is attributed to the crash only if the same history with a clean restart at the same act is clean; mismatches that the clean restart reproduces are counted, not judged (they belong to C04 / C05).",
+    level_text="For every generated sync history (first-run initialisation, set_scripts all / delete, filter batches, block download and indexing, tip updates, check point finalization, shallow fork rollback, restarts) a crash-free run is validated against the reference indexer and then every write boundary of that history is crashed: the store must reopen (twice in a row) without panic and continued syncing must reach answers equal to the reference at the final tip. set_scripts calls arrive both at rest and mid-sync (matched blocks pending). A mismatch is attributed to the crash only if the same history with a clean restart at the same act is clean; mismatches that the clean restart reproduces are counted, not judged (they belong to C04 / C05). The crash model (unwinding at the hook, handles dropped, same-process reopen) is cross-checked at a sample of the write boundaries of every history by a child process that really abort()s before that write: its store is compared with the model's and the recovery is run from it.",
     level_note="process death between two writes (batches are atomic); torn writes / fsync loss are out of scope; all scripts are registered with start number 0 so that the reference is exact; one serving peer keeps the write sequence reproducible (crash points not reached are counted, not claimed)",
 )
 
@@ -170,7 +170,7 @@ prop(
          "one committed (transaction, block hash) pairing, or one bounded-progress judgement; a cell = (kind, status edge, disturbance mode) / final status class",
     sizes=tiers(16, 60, 60, 16, 2500, 900, min_evals=3000, min_cells=20),
     technique="runtime monitoring: offline status-automaton checker over the RPC call/return trace, ground-truth lookup (transaction -> containing block), missing-report bookkeeping at the peer boundary, bounded-progress oracle",
-    level_text="In generated histories (existing and non-existing headers / transactions, 1-3 proven peers, fetch ticks with real or fast timer periods, serving peer answering invalidly, not answering until the timeout, or disconnecting before the answer) every status sequence is a path added -> fetching(first_sent constant) -> fetched | not_found -> added ..., not_found appears only after a valid missing report, an existing item is fetched within 45 rounds while an honest proven peer is connected, and every committed answer names a stored header whose block contains the transaction. A quarter of the scenarios fetch a transaction of the two highest provable blocks, switch the whole network to a branch that replaces that height, store the new branch's block at the same height (fetch_header, fetch_transaction or filter-sync indexing) and judge what get_transaction / fetch_transaction then say about the first transaction (KF47).",
+    level_text="In generated histories (existing and non-existing headers / transactions, 1-3 proven peers, fetch ticks with real or fast timer periods, serving peer answering invalidly, not answering until the timeout, answering several rounds late while further fetch calls arrive, or disconnecting before the answer) every status sequence is a path added -> fetching(first_sent constant) -> fetched | not_found -> added ..., not_found appears only after a valid missing report, an existing item is fetched within 45 rounds while an honest proven peer is connected, and every committed answer names a stored header whose block contains the transaction. A quarter of the scenarios fetch a transaction of the two highest provable blocks, switch the whole network to a branch that replaces that height, store the new branch's block at the same height (fetch_header, fetch_transaction or filter-sync indexing) and judge what get_transaction / fetch_transaction then say about the first transaction (KF47).",
     level_note="'never lost' is restated as bounded progress (45 rounds; 110 for the timeout mode); a committed answer after a fork switch is accepted when it names the block that really contains the transaction (stale but truthful) or when the status is no longer committed",
 )
 
